@@ -325,6 +325,32 @@ type c13Model struct {
 	// annotate.Change call; the remaining versions are then appended through the (exported) map
 	// fields and the call that is observed follows.
 	phased bool
+	// ctxMode is the context handed to the observed annotate.Change call; ctxK: with
+	// c13CtxCancelAtLookup the datasource's lookup hook cancels it at the start of the ctxK-th
+	// history lookup. honour: the datasource wrapper answers a lookup on a done context with
+	// ctx.Err() (a remote source); otherwise it ignores the context (an in-memory source, a cache).
+	ctxMode int
+	ctxK    int
+	honour  bool
+}
+
+const (
+	c13CtxBackground = iota
+	c13CtxCancelled
+	c13CtxDeadlinePast
+	c13CtxCancelAtLookup
+)
+
+func (m *c13Model) ctxName() string {
+	s := [...]string{"Background", "already cancelled", "deadline in the past", fmt.Sprintf("cancelled by the datasource hook at history lookup %d", m.ctxK)}[m.ctxMode]
+	if m.ctxMode != c13CtxBackground {
+		if m.honour && !(m.direct && m.canDirect()) {
+			s += "; datasource returns ctx.Err() on a done context"
+		} else {
+			s += "; datasource ignores the context"
+		}
+	}
+	return s
 }
 
 func (m *c13Model) canDirect() bool { return m.mode >= c13DSLibMap }
@@ -517,7 +543,7 @@ func (m *c13Model) sortedKeys() []c13Key {
 // single returns the sub-model holding only item i with its history and fault.
 func (m *c13Model) single(i int) *c13Model {
 	it := m.items[i]
-	s := &c13Model{items: []c13Item{it}, secNil: [3]bool{true, true, true}, hist: map[c13Key]*c13Hist{}, opt: m.opt, mode: m.mode, fault: map[c13Key]int{}, direct: m.direct, phased: m.phased}
+	s := &c13Model{items: []c13Item{it}, secNil: [3]bool{true, true, true}, hist: map[c13Key]*c13Hist{}, opt: m.opt, mode: m.mode, fault: map[c13Key]int{}, direct: m.direct, phased: m.phased, ctxMode: m.ctxMode, ctxK: m.ctxK, honour: m.honour}
 	k := it.el.key()
 	if h, ok := m.hist[k]; ok {
 		s.hist[k] = &c13Hist{present: h.present, entries: append([]c13El(nil), h.entries...)}
@@ -529,7 +555,7 @@ func (m *c13Model) single(i int) *c13Model {
 }
 
 func (m *c13Model) describe() map[string]any {
-	d := map[string]any{"option": c13OptStr(m.opt), "datasource": m.dsName()}
+	d := map[string]any{"option": c13OptStr(m.opt), "datasource": m.dsName(), "context": m.ctxName()}
 	secs := map[string][]string{}
 	for _, it := range m.items {
 		secs[c13SecName[it.sec]] = append(secs[c13SecName[it.sec]], it.el.str())
@@ -601,6 +627,12 @@ type c13DS struct {
 	injected  *c13Injected
 	calls     []string
 	nfCalls   int
+	// context dimension
+	honour   bool
+	cancelAt int // cancel at the start of this lookup (1-based; 0 = never)
+	cancel   context.CancelFunc
+	lookups  int
+	ctxErrs  int // lookups answered with ctx.Err()
 	// library-built datasources: the object the caller handed to HistoryDatasource()
 	srcOSM    *osm.OSM
 	srcChange *osm.Change
@@ -671,6 +703,22 @@ func c13NewDS(m *c13Model, reuse *c13DS) *c13DS {
 	return ds
 }
 
+// ctxHook is the lookup hook of the context dimension: it cancels the context at the chosen
+// lookup and, for a datasource that honours the context, fails the lookup on a done context.
+func (ds *c13DS) ctxHook(ctx context.Context) error {
+	ds.lookups++
+	if ds.cancelAt > 0 && ds.lookups == ds.cancelAt && ds.cancel != nil {
+		ds.cancel()
+	}
+	if ds.honour {
+		if err := ctx.Err(); err != nil {
+			ds.ctxErrs++
+			return err
+		}
+	}
+	return nil
+}
+
 // appendLate adds the versions that did not exist at construction time through the map fields.
 func (ds *c13DS) appendLate(m *c13Model) {
 	for _, k := range m.sortedKeys() {
@@ -736,6 +784,9 @@ func (ds *c13DS) faultFor(id c13Key) (int, error) {
 func (ds *c13DS) NodeHistory(ctx context.Context, id osm.NodeID) (osm.Nodes, error) {
 	k := c13Key{c13Node, int64(id)}
 	ds.calls = append(ds.calls, k.String())
+	if err := ds.ctxHook(ctx); err != nil {
+		return nil, err
+	}
 	if f, err := ds.faultFor(k); err != nil {
 		if f == c13FaultWithHis {
 			return ds.nodes[id], err
@@ -755,6 +806,9 @@ func (ds *c13DS) NodeHistory(ctx context.Context, id osm.NodeID) (osm.Nodes, err
 func (ds *c13DS) WayHistory(ctx context.Context, id osm.WayID) (osm.Ways, error) {
 	k := c13Key{c13Way, int64(id)}
 	ds.calls = append(ds.calls, k.String())
+	if err := ds.ctxHook(ctx); err != nil {
+		return nil, err
+	}
 	if f, err := ds.faultFor(k); err != nil {
 		if f == c13FaultWithHis {
 			return ds.ways[id], err
@@ -774,6 +828,9 @@ func (ds *c13DS) WayHistory(ctx context.Context, id osm.WayID) (osm.Ways, error)
 func (ds *c13DS) RelationHistory(ctx context.Context, id osm.RelationID) (osm.Relations, error) {
 	k := c13Key{c13Rel, int64(id)}
 	ds.calls = append(ds.calls, k.String())
+	if err := ds.ctxHook(ctx); err != nil {
+		return nil, err
+	}
 	if f, err := ds.faultFor(k); err != nil {
 		if f == c13FaultWithHis {
 			return ds.relations[id], err
@@ -808,6 +865,7 @@ var _ osm.HistoryDatasourcer = (*c13DS)(nil)
 // one observed execution
 
 type c13Out struct {
+	ctxErr error // ctx.Err() after the observed call
 	diff   *osm.Diff
 	err    error
 	ds     *c13DS
@@ -835,7 +893,21 @@ func c13RunReuse(m *c13Model, reuse *c13DS) (out c13Out) {
 		out.ds.calls, out.ds.nfCalls = nil, 0
 		out.ds.appendLate(m)
 	}
-	out.diff, out.err = annotate.Change(context.Background(), out.change, target, m.options()...)
+	ctx, cancel := context.WithCancel(context.Background())
+	defer cancel()
+	switch m.ctxMode {
+	case c13CtxCancelled:
+		cancel()
+	case c13CtxDeadlinePast:
+		var c2 context.CancelFunc
+		ctx, c2 = context.WithDeadline(ctx, time.Unix(1, 0))
+		defer c2()
+	case c13CtxCancelAtLookup:
+		out.ds.cancelAt, out.ds.cancel = m.ctxK, cancel
+	}
+	out.ds.honour, out.ds.lookups, out.ds.ctxErrs = m.honour, 0, 0
+	out.diff, out.err = annotate.Change(ctx, out.change, target, m.options()...)
+	out.ctxErr = ctx.Err()
 	return out
 }
 
@@ -870,6 +942,12 @@ func (o c13Out) errClass() string {
 	}
 	if errors.Is(o.err, error(o.ds.injected)) {
 		return "injected"
+	}
+	if errors.Is(o.err, context.Canceled) {
+		return "context.Canceled"
+	}
+	if errors.Is(o.err, context.DeadlineExceeded) {
+		return "context.DeadlineExceeded"
 	}
 	var nv *annotate.NoVisibleChildError
 	if errors.As(o.err, &nv) && nv != nil {
@@ -1105,6 +1183,16 @@ func c13CheckObs(m *c13Model, out c13Out) (fs []c13Finding, inCellOrder int) {
 			}
 		}
 		add("error-not-nil-on-success", item, "every changed element can be annotated (created, has an earlier version, or missing children are ignored) so err must be nil, but %s", why)
+		return fs, inCellOrder
+	}
+	// --- context dimension: a done context may end the call with its error (returned by the
+	// datasource, or by the library itself); a nil error still promises the complete diff, and
+	// an error the datasource returned must not be swallowed.
+	if out.ctxErr != nil && out.err != nil && errors.Is(out.err, out.ctxErr) {
+		return fs, inCellOrder
+	}
+	if out.err == nil && out.ds.ctxErrs > 0 {
+		add("error-swallowed-context", -1, "the datasource answered %d lookups with ctx.Err() (%v) but Change returned no error", out.ds.ctxErrs, out.ctxErr)
 		return fs, inCellOrder
 	}
 	if len(failing) > 0 {
@@ -1388,7 +1476,7 @@ func c13Judge(res *fw.Result, m *c13Model, c fw.Case, record bool) {
 		}
 		res.Eval(c13SecName[it.sec] + "/" + c13KindName[it.el.kind] + "/" + strings.Join(feats, "+") + "/" + ign + "/" + outcome)
 	}
-	res.Eval(fmt.Sprintf("change/cells=%09b/opt=%d/ds=%d,direct=%v,phased=%v/err=%v", cells, m.opt, m.mode, m.direct && m.canDirect(), m.phased, strings.SplitN(out.errClass(), "(", 2)[0]))
+	res.Eval(fmt.Sprintf("change/cells=%09b/opt=%d/ds=%d,direct=%v,phased=%v/ctx=%d,honour=%v/err=%v", cells, m.opt, m.mode, m.direct && m.canDirect(), m.phased, m.ctxMode, m.honour, strings.SplitN(out.errClass(), "(", 2)[0]))
 	res.Event(int64(len(out.ds.calls) + out.ds.nfCalls))
 	if out.diff != nil {
 		res.Event(int64(len(out.diff.Actions)))
@@ -1399,6 +1487,18 @@ func c13Judge(res *fw.Result, m *c13Model, c fw.Case, record bool) {
 	}
 	if m.phased {
 		res.Add("changes_annotated_after_appending_to_datasource", 1)
+	}
+	if out.ctxErr != nil { // what the library does with a done context: observation
+		switch {
+		case out.err == nil:
+			res.Add("done_context_runs_ending_without_error", 1)
+		case errors.Is(out.err, out.ctxErr) && out.ds.ctxErrs > 0:
+			res.Add("done_context_runs_returning_the_datasource_ctx_error", 1)
+		case errors.Is(out.err, out.ctxErr):
+			res.Add("done_context_runs_returning_ctx_error_without_datasource_error", 1)
+		default:
+			res.Add("done_context_runs_returning_another_error", 1)
+		}
 	}
 	res.Add("history_calls", int64(len(out.ds.calls)))
 	res.Add("notfound_calls", int64(out.ds.nfCalls))
@@ -1477,6 +1577,23 @@ func c13Judge(res *fw.Result, m *c13Model, c fw.Case, record bool) {
 		}
 		d["datasource_calls"] = out.ds.calls
 		res.Sample = d
+	}
+}
+
+// c13RotateCtx gives the enumerated models the context dimension in rotation: half of them
+// Background, the others cancelled / past deadline / cancelled at lookup 1 or 2, datasource
+// ignoring or honouring the context.
+func c13RotateCtx(m *c13Model, x int) {
+	x %= 12
+	if x < 6 {
+		return
+	}
+	m.ctxMode, m.honour, m.ctxK = []int{c13CtxCancelled, c13CtxDeadlinePast, c13CtxCancelAtLookup}[x%3], x >= 9, 1+x%2
+	if m.direct && m.canDirect() {
+		m.honour = false
+		if m.ctxMode == c13CtxCancelAtLookup {
+			m.ctxMode = c13CtxCancelled
+		}
 	}
 }
 
@@ -1612,6 +1729,12 @@ func c13GenModel(r *gen.R) *c13Model {
 	m.mode = r.Intn(c13NModes)
 	m.direct = m.canDirect() && r.Bool()
 	m.phased = r.Chance(0.2)
+	if r.Chance(0.3) {
+		m.ctxMode, m.honour, m.ctxK = r.Range(c13CtxCancelled, c13CtxCancelAtLookup), r.Bool(), r.Range(1, 8)
+		if m.direct { // no hook on the concrete datasource, and it ignores the context
+			m.ctxMode, m.honour = r.Range(c13CtxCancelled, c13CtxDeadlinePast), false
+		}
+	}
 	m.opt = r.Intn(3) // IgnoreMissingChildren absent | true | false, crossed with the options that must not matter
 	if r.Chance(0.3) {
 		m.opt += 3 * 1 // Threshold
@@ -1809,6 +1932,7 @@ func c13Exec(c fw.Case) *fw.Result {
 					m := &c13Model{hist: map[c13Key]*c13Hist{}, fault: map[c13Key]int{}, secNil: [3]bool{true, true, true}}
 					m.mode = n % c13NModes
 					m.direct, m.phased = m.canDirect() && (n/c13NModes)%2 == 1, (n/(2*c13NModes))%3 == 2
+					c13RotateCtx(m, n/3)
 					imc := []int{c13OptNone, c13OptIgnoreFalse}[n%2]
 					if ign {
 						imc = c13OptIgnore
@@ -1912,6 +2036,7 @@ func c13Exec(c fw.Case) *fw.Result {
 				m := &c13Model{hist: map[c13Key]*c13Hist{ka: {present: true}, kb: {present: true}}, fault: map[c13Key]int{},
 					secNil: [3]bool{true, true, true}, mode: mode, opt: []int{c13OptNone, c13OptIgnore}[n%2] + 3*(n%c13NUnrelated),
 					direct: n%2 == 1, phased: n%5 == 4}
+				c13RotateCtx(m, n/2)
 				var l [3][3][]c13Ref
 				for pos := 0; pos < 5; pos++ {
 					k := kb
@@ -1959,6 +2084,7 @@ func c13Exec(c fw.Case) *fw.Result {
 					for ign := 0; ign < 2; ign++ {
 						for mode := 0; mode < c13NModes; mode++ {
 							m := &c13Model{hist: map[c13Key]*c13Hist{}, fault: map[c13Key]int{}, mode: mode, opt: ign + 3*(n%c13NUnrelated), direct: mode >= c13DSLibMap && n%2 == 1, phased: n%3 == 2}
+							c13RotateCtx(m, n/2)
 							for sec := 0; sec < 3; sec++ {
 								for kind := 0; kind < 3; kind++ {
 									m.items = append(m.items, c13Item{sec, c13MakeEl(r, kind, id, []int{9, 3, 4}[sec], false)})
@@ -2014,7 +2140,7 @@ func init() {
 		Level: "exploration",
 		Rule: "random (osmChange, histories, option, datasource) triples from a harness-side model: 0-4 elements in each of the nine (create|modify|delete)x(node|way|relation) cells over small id pools (12 % of the ids outside the packed-id domain: negative, 0, >= 2^40, near +-2^62) " +
 			"(same feature in several sections), histories sorted/reversed/shuffled with version gaps, later versions, duplicates of the element's own version, duplicated predecessors, large versions, empty, or not found; " +
-			"54 option sets (IgnoreMissingChildren absent|true|false x Threshold absent|1m x IgnoreInconsistency absent|true|false x ChildFilter absent|reject|accept), in the enumeration every history without predecessor and every injected-error flavour against all 18 combinations of the options that must not matter; each of the three library-datasource kinds is passed either behind the recording wrapper or as the concrete *osm.HistoryDatasource itself (struct literal over directly filled exported maps, or the constructors' result), and 20 % of the changes are annotated after a first Change call followed by appending the second half of every history through the exported map fields; five datasource behaviours behind a call-recording wrapper (own sentinel, own wrapped typed error, the library's map datasource filled directly, and histories handed over as an *osm.OSM or spread over the sections of an *osm.Change and turned into a datasource by the library's own HistoryDatasource() methods - grouped, interleaved, round-robin or two-run layouts) that can inject a non-not-found error (three flavours); " +
+			"54 option sets (IgnoreMissingChildren absent|true|false x Threshold absent|1m x IgnoreInconsistency absent|true|false x ChildFilter absent|reject|accept), in the enumeration every history without predecessor and every injected-error flavour against all 18 combinations of the options that must not matter; each of the three library-datasource kinds is passed either behind the recording wrapper or as the concrete *osm.HistoryDatasource itself (struct literal over directly filled exported maps, or the constructors' result), and 20 % of the changes are annotated after a first Change call followed by appending the second half of every history through the exported map fields; 30 % of the random changes (and half of the enumerated ones, in rotation) are annotated under a done or dying context (already cancelled | deadline in the past | cancelled by the datasource hook at the k-th lookup) with a datasource that ignores the context or one that answers ctx.Err(); five datasource behaviours behind a call-recording wrapper (own sentinel, own wrapped typed error, the library's map datasource filled directly, and histories handed over as an *osm.OSM or spread over the sections of an *osm.Change and turned into a datasource by the library's own HistoryDatasource() methods - grouped, interleaved, round-robin or two-run layouts) that can inject a non-not-found error (three flavours); " +
 			"plus a seed-independent small-scope enumeration: one modified/deleted element of version 1..6 against every subset of history versions 1..6 in five orders, empty and missing, per kind, section and option, and two histories handed to HistoryDatasource() in every interleaving and every admissible section spread. " +
 			"The expectation comes from an independent reference (sort by version, first below). One evaluation per changed element with signature (section, kind, history features, strict|ignore, outcome) " +
 			"and one per change with signature (cell mask, option set, datasource, error class); distinct_nontrivial counts distinct signatures.",
@@ -2025,7 +2151,8 @@ func init() {
 			"when the greatest version below the element's own occurs twice in a history, either entry is accepted as the old state",
 			"the call rewrites the Visible flag of the input elements in place (they are shared with the diff); input immutability is not part of the statement, so changes to the input are counted as observations, not asserted",
 			"create actions must carry exactly one element in Action.OSM and none in Old/New, modify/delete exactly one in Old and one in New and none in Action.OSM (diff.go documents this population); nil and empty are treated alike; Diff.Changesets and the attributes of the wrapping *osm.OSM are not asserted",
-			"versions <= 0, nil elements and a cancelled context are outside the statement: versions <= 0 are executed without assertion, the others are not generated",
+			"versions <= 0 and nil elements are outside the statement: versions <= 0 are executed without assertion, nil elements are not generated",
+			"context: the statement fixes that a nil error comes with the complete, exact diff, whatever the context; on a done context (already cancelled, deadline in the past, cancelled by the datasource's lookup hook) an error for which errors.Is(err, ctx.Err()) holds is accepted whether the datasource returned it or the library produced it itself (recorded which; the unchanged library never produces it itself), an error the datasource returned for a lookup must not be swallowed, and every other outcome is judged by the ordinary rules",
 			"element ids are not restricted by the statement: negative ids (editor placeholders), 0, ids >= 2^40 and near +-2^62 are generated in every section and kind with histories under the same ids and fully asserted (the unchanged library yields the exact diff for them); only the ID field of *NoVisibleChildError is not asserted when an element without predecessor has an id outside [0, 2^40), because a packed FeatureID cannot name it (node -1, way -1 and relation -1 all pack to the same value)",
 			"'missing children are ignored' means IgnoreMissingChildren(true) was passed - the only option annotate.Change documents; Threshold, IgnoreInconsistency(true|false), ChildFilter and IgnoreMissingChildren(false) must not change the outcome: without IgnoreMissingChildren(true) a missing history and a missing earlier version alike are reported as the typed error",
 			"a panic of annotate.Change on such inputs is reported as a violation (no diff was yielded)",
